@@ -6,7 +6,9 @@ import (
 	"sort"
 	"strings"
 
+	"github.com/LemoFoundationLtd/lemochain-core/chain/account"
 	"github.com/LemoFoundationLtd/lemochain-core/chain/types"
+	"github.com/LemoFoundationLtd/lemochain-core/common"
 )
 
 // c07Copy ties LemoModel.CopyHeap to types.AccountData.Copy: for every shape of the two map fields (nil, empty,
@@ -77,6 +79,69 @@ func c07Copy(c *Ctx) {
 		c.Count("copy:profile-" + ps[:1] + ":records-" + rs[:1])
 		c.Op(strings.TrimSpace(fmt.Sprintf("copy %s %s %s", ps, rs, strings.Join(words, " "))),
 			fmt.Sprintf("src.profile=%s src.records=%s cpy.profile=%s cpy.records=%s", showP(src.Candidate.Profile), showR(src.NewestRecords), showP(cp.Candidate.Profile), showR(cp.NewestRecords)))
+	}
+	// the slice field: Copy shares the backing array of Signers; SetSingers through an account made from the data
+	// (NewAccount copies the data the way the store's account database does) must not change what the source shows.
+	// op: `copysig <n> <list> ...`  — source has signers 1..n; each list is what one SetSingers call gets
+	runSig := func(n int, lists [][]int) {
+		src := &types.AccountData{Balance: big.NewInt(1)}
+		for i := 1; i <= n; i++ {
+			src.Signers = append(src.Signers, types.SignAccount{Address: common.BigToAddress(big.NewInt(int64(i))), Weight: 1})
+		}
+		acc := account.NewAccount(nil, common.Address{}, src)
+		var words []string
+		for _, l := range lists {
+			var ss types.Signers
+			var parts []string
+			for _, x := range l {
+				ss = append(ss, types.SignAccount{Address: common.BigToAddress(big.NewInt(int64(x))), Weight: 1})
+				parts = append(parts, fmt.Sprint(x))
+			}
+			if len(parts) == 0 {
+				words = append(words, "-")
+			} else {
+				words = append(words, strings.Join(parts, ","))
+			}
+			acc.SetSingers(ss)
+		}
+		show := func(ss types.Signers) string {
+			var l []string
+			for _, s := range ss {
+				l = append(l, new(big.Int).SetBytes(s.Address[:]).String())
+			}
+			return "[" + strings.Join(l, ",") + "]"
+		}
+		c.Count(fmt.Sprintf("copysig:source-len-%d", n))
+		res := fmt.Sprintf("src=%s cpy=%s", show(src.Signers), show(acc.GetSigners()))
+		c.Op(strings.TrimSpace(fmt.Sprintf("copysig %d %s", n, strings.Join(words, " "))), res)
+		// direct oracle (C07 "discard leaves no trace", slice field)
+		for i, s := range src.Signers {
+			if new(big.Int).SetBytes(s.Address[:]).Int64() != int64(i+1) {
+				c.Fail("c07/discard-leaves-trace/signers-of-source-changed", fmt.Sprintf("AccountData with %d signers; SetSingers %v through an account made from a copy of it: the SOURCE now shows %s", n, words, show(src.Signers)), nil)
+				break
+			}
+		}
+	}
+	for n := 0; n <= 4; n++ {
+		runSig(n, nil)
+		for l := 0; l <= 5; l++ {
+			var one []int
+			for i := 0; i < l; i++ {
+				one = append(one, 9-i)
+			}
+			runSig(n, [][]int{one})
+		}
+		for k := 0; k < 4+c.N/2000; k++ {
+			var lists [][]int
+			for i := c.Rnd.Intn(4); i >= 0; i-- {
+				var one []int
+				for j := c.Rnd.Intn(6); j > 0; j-- {
+					one = append(one, 5+c.Rnd.Intn(5))
+				}
+				lists = append(lists, one)
+			}
+			runSig(n, lists)
+		}
 	}
 	// all shape pairs with no write, one write per field, and random write lists
 	for _, ps := range shapes {
